@@ -215,7 +215,7 @@ def probe_dump(p, rng=None, nrows=2):
         rng.shuffle(idxs)
     for k in idxs[:nrows]:
         obj1 = p["obj"]()
-        delta = p.get("delta", 100.0) * (1.0 if rng is None else rng.choice([1.0, 0.5, 2.0, -1.0]))
+        delta = p.get("delta", 100.0) * (1.0 if rng is None else rng.choice([1.0, 0.5, 0.25, -1.0]))
         before, after = p["set"](obj1, k, delta)
         text1 = _dump_text(p["iofmt"], obj1, name)
         t0 = [m.group(0) for m in NUM_RE.finditer(text0)]
@@ -738,6 +738,11 @@ def replay(ctx, obj):
         rows, _ = run_probes(None, strict=False)
         return any(_row_ok_py(spec, units, f, q, d, a, b, s) is not True for f, q, d, a, b, s, _n in rows
                    if (f, q, d) == (inp["fmt"], inp["qty"], inp["dir"]))
+    if inp["kind"] == "probe-problem":
+        _rows, problems = run_probes(None, strict=False)
+        return any(pr.split(":")[0] == inp["what"].split(":")[0] for pr in problems)
+    if inp["kind"] == "roundtrip":
+        return True  # random molecule not stored in full; rerun the check
     if inp["kind"] == "wfn-roundtrip":
         return any(ok is False for f, a, ok, _w in _wfn_roundtrips() if (f, a) == (inp["fmt"], inp["attr"]))
     if inp["kind"] == "mass":
